@@ -331,8 +331,110 @@ class RandomWalkH(_BeamBase):
         return dict(outputs=lp.tolist(), failures=failures)
 
 
+class DistWrapperH(_BeamBase):
+    """SequentialLanguageModelDistribution: samples lie in the support and log_prob(sample) equals the chained model log-probability
+    (= what the random walk reports).  cfg: V, eos, max_iters, M (number of samples)"""
+    functions = ["pydrobert.torch._decoding.SequentialLanguageModelDistribution.sample", "…log_prob", "…support / TokenSequenceConstraint.check",
+                 "pydrobert.torch._decoding.RandomWalk.forward", "pydrobert.torch._lm.SequentialLanguageModel.forward/calc_full_log_probs"]
+
+    def _dist(self, lm):
+        from pydrobert.torch.modules import RandomWalk
+        from pydrobert.torch.distributions import SequentialLanguageModelDistribution
+        c = self.cfg
+        return SequentialLanguageModelDistribution(RandomWalk(lm, c["eos"]), None, None, c["max_iters"], False, False)
+
+    def _lm(self, table, symbolic):
+        V = self.cfg["V"]
+        Base = make_lm(V, table, symbolic)
+
+        class Shared(Base):
+            def update_input(self, prev, hist):
+                if "code" in prev:
+                    return prev
+                N = hist.size(1)
+                return {"code": torch.zeros((N,), dtype=torch.long), "elem": torch.zeros((N,), dtype=torch.long)}
+
+        return Shared()
+
+    def symbolic(self, eng):
+        c = self.cfg
+        V, eos, T, M = c["V"], c["eos"], c["max_iters"], c["M"]
+        table = self._sym_table(eng, range(1))
+        eng.stubs["_log_softmax"] = self._identity_log_softmax
+        ch = [[eng.int(f"ch{t}_{m}", 0, V - 1) for m in range(M)] for t in range(T)]
+        step = [0]
+
+        def multinomial_stub(e, func, ov, probs, num, replacement=False, generator=None):
+            t = step[0]
+            step[0] += 1
+            rows = probs.nested()
+            for m in range(M):
+                p = 0.0
+                for v in range(V):
+                    p = s_ite(s_cmp("eq", ch[t][m], v), rows[m][v], p)
+                e.assume(s_cmp("gt", p, 0.0))
+            return e.tensor([ch[t][m] for m in range(M)], (M, 1), torch.int64)
+
+        eng.stubs["multinomial"] = multinomial_stub
+        dist = self._dist(self._lm(table, True))
+        sample = dist.sample(torch.Size([M]))
+        S = sample.shape[-1]
+        if tuple(sample.shape) != (M, S) or S > T:
+            return dict(outputs=[], viol=[(f"sample shape {tuple(sample.shape)}", True)])
+        insup = dist.support.check(sample)
+        lp = dist.log_prob(sample)
+        sn = sample.nested()
+        viol = []
+        for m in range(M):
+            toks = sn[m]
+            viol.append((f"sample {m} is reported outside the support", s_not(insup.vals()[m])))
+            # length = position of the first eos (inclusive) or all steps
+            L = S
+            if eos is not None:
+                for s in range(S - 1, -1, -1):
+                    L = s_ite(s_cmp("eq", toks[s], eos), s + 1, L)
+            for s in range(S):
+                viol.append((f"sample {m}: token {s} out of vocabulary", s_or(s_cmp("lt", toks[s], 0), s_cmp("ge", toks[s], V))))
+            score = chain_score_z(table, 0, toks, L, V, S)
+            viol.append((f"sample {m}: log_prob(sample) != chained model log-probability up to the first eos", s_not(s_eq_total(lp.vals()[m], score))))
+        return dict(outputs=list(lp.vals()), viol=viol)
+
+    def concrete(self, vals):
+        c = self.cfg
+        V, eos, T, M = c["V"], c["eos"], c["max_iters"], c["M"]
+        table = self._real_table(vals, range(1))
+        step = [0]
+        orig = torch.multinomial
+
+        def fake(probs, num, replacement=False, generator=None):
+            t = step[0]
+            step[0] += 1
+            return torch.tensor([[vals[f"ch{t}_{m}"]] for m in range(M)])
+
+        torch.multinomial = fake
+        try:
+            dist = self._dist(self._lm(table, False))
+            sample = dist.sample(torch.Size([M]))
+        finally:
+            torch.multinomial = orig
+        lp = dist.log_prob(sample)
+        insup = dist.support.check(sample)
+        failures = []
+        for m in range(M):
+            seq = sample[m].tolist()
+            if not bool(insup[m]):
+                failures.append(f"sample {m} {seq} reported outside the support")
+            L = len(seq)
+            if eos is not None and eos in seq:
+                L = seq.index(eos) + 1
+            score = sum(table[(0, code_of(tuple(seq[:t]), V))][seq[t]] for t in range(L))
+            if abs(score - lp[m].item()) > 1e-4 * (1 + abs(score)):
+                failures.append(f"sample {m} {seq}: log_prob {lp[m].item()} but chained log-probability is {score}")
+        return dict(outputs=lp.tolist(), failures=failures)
+
+
 META = dict(
-    functions=sorted(set(SeqLogProbsH.functions + GreedyCtcH.functions + RandomWalkH.functions)),
+    functions=sorted(set(SeqLogProbsH.functions + GreedyCtcH.functions + RandomWalkH.functions + DistWrapperH.functions)),
     files=["src/pydrobert/torch/_decoding.py", "src/pydrobert/torch/_string.py"],
     explanation=(
         "sequence_log_probs (padded and packed input, both sequence dims) runs on symbolic logits and symbolic tokens including out-of-vocabulary values; "
@@ -340,13 +442,14 @@ META = dict(
         "frame scores and lengths; oracle: per-frame first maximal label within the valid length, repeats collapsed, blanks dropped, sum (product) of maxima.  "
         "RandomWalk runs with the stateful history-coding table LM of C04 and torch.multinomial replaced by an arbitrary token of positive probability (a solver "
         "variable per step and walk): the path is the drawn tokens, ends at its first eos or the step limit, and its reported log-probability equals the chained "
-        "model log-probability."),
+        "model log-probability.  SequentialLanguageModelDistribution: every sample drawn through the wrapper lies in its support and log_prob(sample) equals the "
+        "chained model log-probability up to the first eos."),
     bounds=dict(quick="scores: T<=3,N<=2,V=3, tokens in -1..V; greedy: T=3,N=2,V=3, all blank indices; walk: V in {2,3}, steps<=3, N in {None,1,2}",
                 thorough="scores: T<=4,N=2,V=3 both dims, packed with all length patterns; greedy: T=4,N=2,V=3; walk: V<=3, steps<=3"),
     assumptions=["log_softmax = logits - uninterpreted lse(row), pinned to the true logsumexp for validation/replay", "exp uninterpreted positive with exp(-inf)=0",
                  "max ties broken towards the lowest index (counterexamples preferentially tie-free, always replayed)", "multinomial stub: any token whose probability is positive",
                  "logits on the quarter grid"],
-    outside=["SequentialLanguageModelDistribution: probabilities over the enumerated support summing to one needs sum(exp)=1 (not expressible with uninterpreted exp); its log_prob/sample agreement is not claimed in this version",
+    outside=["SequentialLanguageModelDistribution: probabilities over the enumerated support summing to one needs sum(exp)=1 (not expressible with uninterpreted exp)",
              "TorchScript variants", "sizes beyond the bound"],
 )
 
@@ -367,4 +470,6 @@ def tasks(tier):
         ts.append(task(PROP, M_, "GreedyCtcH", T=3 if q else 4, N=2, V=3, blank=blank, batch_first=bf, is_probs=ip, lens=ln, as_module=(blank == 0)))
     for V, eos, T, N in ((2, 1, 3, 2), (3, None, 2, None), (2, 0, 2, 1), (3, 2, 3, 1)) if q else [(V, e, T, N) for V in (2, 3) for e in [None] + list(range(V)) for T in (1, 2, 3) for N in (None, 1, 2)]:
         ts.append(task(PROP, M_, "RandomWalkH", V=V, eos=eos, max_iters=T, N=N))
+    for V, eos, T, M in ((2, 1, 3, 2), (3, None, 2, 2), (2, 0, 2, 1)) if q else [(V, e, T, 2) for V in (2, 3) for e in [None] + list(range(V)) for T in (1, 2, 3)]:
+        ts.append(task(PROP, M_, "DistWrapperH", V=V, eos=eos, max_iters=T, M=M))
     return ts
